@@ -184,9 +184,10 @@ class GR:
 
     def config(self, fl=None):
         r = self.r
-        return "iso=%d;tr=%s;fm=%s;fl=%s;loc=%s" % (r.randrange(2), r.choice(["none", "none", "upper", "pseudo", "bracket"]),
+        # fw=1: after the requests, every request is also written to writers that fail after 0..12 bytes (must not panic)
+        return "iso=%d;tr=%s;fm=%s;fl=%s%s;loc=%s" % (r.randrange(2), r.choice(["none", "none", "upper", "pseudo", "bracket"]),
                                                     r.choice(["none", "none", "numbr", "strwrap"]),
-                                                    fl or r.choice(["st", "st", "conc"]),
+                                                    fl or r.choice(["st", "st", "conc"]), ";fw=1" if r.random() < 0.3 else "",
                                                     r.choice(["en", "en", "en-US", "pl", "ru", "ar", "fr", "cs", "lt", "ja", "xx", "pt", "pt-PT",
                                                               # locale CHAINS: only the first locale selects the plural rules
                                                               "xx+pl", "xx+ar", "en+pl", "pl+en", "pt-PT+ru", "ja+lt", "-"]))
